@@ -4,6 +4,7 @@ import genck
 import implck
 from ckprop import shrink_candidates  # noqa: F401
 from props import C19 as _C19
+import directed
 
 DESCRIPTION = ("Lean: Props/C08.lean. Run-time: each capture at most once, only if preconditions pass and the callable has "
                "postconditions and snapshots, between the last precondition and the body; OLD seen by postconditions and "
@@ -20,7 +21,12 @@ NEIGHBOURS = [{"from": "C04", "limit": 1500, "why": "snapshots are inherited tog
               {"from": "C17", "tags": ["late"], "limit": 600, "why": "duplicate snapshot names are refused at definition time also for late decorations of class members"}]
 
 
+run_directed = directed.run
+
+
 def cases(tier, rng):
+    for c in directed.integrator_snapshot_without_postcondition_cases():
+        yield "directed-integrator-snapshot-without-postcondition", c
     for t, c in _C19.cases(tier, rng):
         if c.get('dom') == 'define' and c['what'] in ('snapshot_name', 'snapshot_apply'):
             yield 'def_' + t, c
